@@ -1,9 +1,16 @@
 // Command c16 replays the C16 case space (function name x argument count x
 // configuration) against the real code.
 //
-//	c16 run cases.ndjson obs.ndjson
+//	c16 run cases.ndjson obs.ndjson ORDER
 //
-// For every case it records
+// ORDER is a process history such as DED: an epoch of all default-configuration
+// cases, then all WithExperimentalFuncs cases, then the default ones again, all
+// in this one process, so that what Compile accepts and what funcs.Clone()
+// returns can be compared before and after compilations under the other
+// configuration. Every record carries its epoch, the configurations compiled in
+// earlier epochs (hist) and the table entry as read at process start (tbl0).
+//
+// For every case and epoch it records
 //
 //	accept  the implementation's table entry for the name, read through
 //	        funcs.Clone / funcs.AddExperimentalFuncs, and what Compile said
@@ -152,8 +159,8 @@ func dedupe(out lib.Outcome) lib.Outcome {
 }
 
 func main() {
-	if len(os.Args) != 4 || os.Args[1] != "run" {
-		lib.Fatal("usage: c16 run cases.ndjson obs.ndjson")
+	if len(os.Args) != 5 || os.Args[1] != "run" {
+		lib.Fatal("usage: c16 run cases.ndjson obs.ndjson ORDER   (ORDER over D, E, e.g. DED)")
 	}
 	lib.RegisterSentinels(
 		lib.ErrSentinel{Err: impl.ErrWrongArity, Class: "WrongArity"},
@@ -177,10 +184,14 @@ func main() {
 	}); err != nil {
 		lib.Fatal("%v", err)
 	}
+	// the implementation's tables as read at process start, before any Compile
+	cfgOf := map[byte]string{'D': "default", 'E': "experimental"}
+	order := os.Args[4]
+	table0 := map[string]funcs.FunctionTable{"default": tableFor("default"), "experimental": tableFor("experimental")}
 	// names that only the implementation's tables know
 	implOnly := map[string]bool{}
 	for _, cfg := range []string{"default", "experimental"} {
-		for n := range tableFor(cfg) {
+		for n := range table0[cfg] {
 			if !specNames[n] {
 				implOnly[n] = true
 			}
@@ -215,39 +226,59 @@ func main() {
 	if err != nil {
 		lib.Fatal("%v", err)
 	}
-	lib.ParallelMap(len(cases), runtime.NumCPU(), func(i int) {
-		c := cases[i]
-		tbl := entry(tableFor(c.Cfg), c.Name)
-		comp, _ := compileOnly(c.Text, c.Cfg)
-		write := func(kind string, j int, out lib.Outcome) {
-			id := c.ID + "#" + kind
-			if kind == "probe" {
-				id = fmt.Sprintf("%s#p%d", c.ID, j)
-			}
-			src := c.Text
-			if kind == "probe" {
-				src = c.Probes[j-1]
-			}
-			pos := "plain"
-			if kind == "nested" {
-				kind, pos = "accept", "nested"
-				src = nested(c.Text)
-			}
-			if err := w.Write(map[string]any{"id": id, "kind": kind, "pos": pos, "j": j, "cs": c, "tbl": tbl, "comp": dedupe(comp), "out": dedupe(out), "src": src}); err != nil {
-				lib.Fatal("%v", err)
+	hist := []string{}
+	for ep := 0; ep < len(order); ep++ {
+		cfg, ok := cfgOf[order[ep]]
+		if !ok {
+			lib.Fatal("bad order %q", order)
+		}
+		var todo []caseRec
+		for _, c := range cases {
+			if c.Cfg == cfg {
+				todo = append(todo, c)
 			}
 		}
-		write("accept", 0, comp)
-		// the same call in argument position of another call must be accepted or rejected alike
-		ncomp, _ := compileOnly(nested(c.Text), c.Cfg)
-		write("nested", 0, ncomp)
-		if comp["k"] == "ok" {
-			write("eval", 0, lib.EvalOutcome(forest, c.Text, res, copts(c.Cfg), eopts()))
-		}
-		for j, p := range c.Probes {
-			write("probe", j+1, lib.EvalOutcome(forest, p, res, copts(c.Cfg), eopts()))
-		}
-	})
+		// one sequential compilation under the epoch's configuration first, so that whatever a
+		// Compile does to process-wide state has happened before the parallel part starts
+		compileOnly("true", cfg)
+		epoch, earlier := ep+1, append([]string{}, hist...)
+		lib.ParallelMap(len(todo), runtime.NumCPU(), func(i int) {
+			c := todo[i]
+			tbl := entry(tableFor(c.Cfg), c.Name)
+			tbl0 := entry(table0[c.Cfg], c.Name)
+			comp, _ := compileOnly(c.Text, c.Cfg)
+			write := func(kind string, j int, out lib.Outcome) {
+				id := fmt.Sprintf("%s%d:%s#%s", order, epoch, c.ID, kind)
+				if kind == "probe" {
+					id = fmt.Sprintf("%s%d:%s#p%d", order, epoch, c.ID, j)
+				}
+				src := c.Text
+				if kind == "probe" {
+					src = c.Probes[j-1]
+				}
+				pos := "plain"
+				if kind == "nested" {
+					kind, pos = "accept", "nested"
+					src = nested(c.Text)
+				}
+				if err := w.Write(map[string]any{"id": id, "kind": kind, "pos": pos, "j": j, "cs": c, "proc": order, "epoch": epoch, "hist": earlier,
+					"tbl": tbl, "tbl0": tbl0, "comp": dedupe(comp), "out": dedupe(out), "src": src}); err != nil {
+					lib.Fatal("%v", err)
+				}
+			}
+			write("accept", 0, comp)
+			// the same call in argument position of another call must be accepted or rejected alike
+			ncomp, _ := compileOnly(nested(c.Text), c.Cfg)
+			write("nested", 0, ncomp)
+			if comp["k"] == "ok" {
+				write("eval", 0, lib.EvalOutcome(forest, c.Text, res, copts(c.Cfg), eopts()))
+			}
+			for j, p := range c.Probes {
+				write("probe", j+1, lib.EvalOutcome(forest, p, res, copts(c.Cfg), eopts()))
+			}
+		})
+		hist = append(hist, cfg)
+	}
 	if err := w.Close(); err != nil {
 		lib.Fatal("%v", err)
 	}
